@@ -160,7 +160,8 @@ def t_makemap():
 
 def t_custom_empty():
     # a Custom function that draws nothing for n = 0 (a misuse the library answers with an assertion, reproducibly)
-    return [draw(IntRange(0, 3), "n", "n"), op("share", var="n"), draw(g("CustomShared", fn="n"), "c", "c"), iff("n", "ge", 2, [op("fatalf", site=1)])]
+    return [draw(IntRange(0, 3), "n", "n"), op("share", var="n"), draw(g("CustomShared", fn="n"), "c", "c"), draw(g("Int16"), "x", "x"),
+            iff("x", "ge", 100, [op("fatalf", site=1)])]
 
 
 def t_sm2():
@@ -488,6 +489,11 @@ def c07(tier, seed):
                             {"checks": rng.choice([5, 100]), "seed": sd, "nofailfile": "true"},
                             runs=[{}, {"expect": "same_run", "warm": rng.sample(["strings", "labels", "check", "failcheck"], 2)}],
                             tag={"template": tn}))
+    # two-action state machines without an invariant (the order of the actions must not depend on map iteration)
+    for sd in seeds(rng, 3 if tier == "quick" else 30):
+        out.append(scenario("c07-sm2-%d" % sd, {"body": t_sm2()}, {"checks": 100, "seed": sd, "nofailfile": "true"},
+                            runs=[{}, {"expect": "same_run"}, {"expect": "same_run", "freshProc": True}, {"seedPrev": True, "expect": "seed_prev", "expectRun": 1}],
+                            tag={"template": "sm2"}))
     # (e) a failure replayed from a fail file: if its message prints a seed, that seed must reproduce the (minimized) case it shows
     for sd in seeds(rng, max(3, n // 2)):
         tn = rng.choice(["threshold", "distinct", "map", "multisite"])
